@@ -390,6 +390,9 @@ def _source_site(path, line):
                 _src_cache[path] = f.read().splitlines()
         lines = _src_cache[path]
         text = lines[line - 1].strip() if 0 < line <= len(lines) else "?"
+        if text.endswith("(") and line + 1 < len(lines):
+            # multi-line macro call: take the argument lines too
+            text = (text + " ".join(l.strip() for l in lines[line:line + 2]))[:160]
         fn = "?"
         import re
         for i in range(min(line, len(lines)) - 1, -1, -1):
@@ -422,6 +425,10 @@ def panic_signature(resp):
         if "/src/" in f:
             f = f[f.rindex("/", 0, f.index("/src/")) + 1:]
         fn, text = "?", "?"
+    if "is_wellformed()" in text and text.startswith("assert!("):
+        # one root cause, dozens of assertion sites: an ill-formed type (pointer to view, array of void, ...)
+        # built from ill-typed input reaches one of the `assert!(x.is_wellformed())` guards
+        return "panic: %s: assert!(<type>.is_wellformed())" % f
     msg = resp.get("msg", "")
     head = re.split(r"[{(\[\"':]| \d", msg, maxsplit=1)[0].strip()[:80]
     if msg.startswith("internal error") or msg.startswith("assertion") or msg.startswith("not "):
